@@ -266,7 +266,10 @@ def main(argv=None):
         return 0
 
     t_start = time.time()
-    budget = args.budget or getattr(check, "BUDGET", {"quick": 45, "thorough": 900})[tier]
+    # quick: the fixed run-index range [0, RUNS) decides what is explored, so that the same VERIF_SEED explores the same
+    # cases on every machine (the budget is only a safety cap, sized several times the expected wall time);
+    # thorough: as many runs as fit in the budget.
+    budget = args.budget or getattr(check, "BUDGET", {"quick": 300, "thorough": 900})[tier]
     max_runs = args.runs or getattr(check, "RUNS", {"quick": 4000, "thorough": 200000})[tier]
     chunk = getattr(check, "CHUNK", 8)
     findings = load_findings()
@@ -446,7 +449,8 @@ def main(argv=None):
             "outcomes": agg, "skip_histogram": skip_hist,
             "nontrivial_runs": nontrivial,
             "runs_per_hour": int(total / max(sample_wall, 1e-6) * 3600),
-            "seeds": {"VERIF_SEED": int(verif_seed), "run_index_range": [0, max(results) if results else -1]},
+            "seeds": {"VERIF_SEED": int(verif_seed), "run_index_range": [0, max(results) if results else -1],
+                      "planned_runs": max_runs, "planned_range_completed": nsub >= max_runs},
             "fault_kinds_fired": fault_fired,
             "counters": counters,
             "known_findings_seen": known_seen,
